@@ -311,6 +311,32 @@ func corrC13(c *corrCtx) {
 			}
 			check("random", col, w)
 		}
+		// coordinates exactly zero (either sign), one or two at a time, the others free; and exact multiples
+		negz := float32(math.Copysign(0, -1))
+		for i := 0; i < 60; i++ {
+			col := ciexyz.Color{X: float32(2 * r.f64()), Y: float32(2 * r.f64()), Z: float32(2 * r.f64())}
+			z := float32(0)
+			if i%4 == 3 {
+				z = negz
+			}
+			switch i % 7 {
+			case 0:
+				col.X = z
+			case 1:
+				col.Y = z
+			case 2:
+				col.Z = z
+			case 3:
+				col.X, col.Y = z, z
+			case 4:
+				col.Y, col.Z = z, z
+			case 5:
+				col.X, col.Z = z, z
+			default:
+				col = ciexyz.Color{X: z, Y: z, Z: z}
+			}
+			check("zero-coordinate", col, w)
+		}
 		// Lab box -> XYZ: finite, and Lab->XYZ->Lab consistency is exercised through the model
 		for i := 0; i < nr/2; i++ {
 			lab := cielab.Color{L: float32(-10 + 120*r.f64()), A: float32(-200 + 400*r.f64()), B: float32(-200 + 400*r.f64())}
@@ -386,10 +412,11 @@ func corrC20(c *corrCtx) {
 	type tri struct {
 		name string
 		p    [4][2]float32
+		yy   [4]float32 // luminance of each xyY colour (0 = 1)
 	}
 	var tris []tri
 	for n, p := range rgbSpaces {
-		tris = append(tris, tri{n, p})
+		tris = append(tris, tri{name: n, p: p})
 	}
 	// sort for determinism
 	for i := 1; i < len(tris); i++ {
@@ -418,14 +445,41 @@ func corrC20(c *corrCtx) {
 		}
 		cc := 1 - a - b
 		p[3] = [2]float32{float32(a*x1 + b*x2 + cc*x3), float32(a*y1 + b*y2 + cc*y3)}
-		tris = append(tris, tri{fmt.Sprintf("rand%d", len(tris)), p})
+		t := tri{name: fmt.Sprintf("rand%d", len(tris)), p: p}
+		switch len(tris) % 3 {
+		case 1: // a white whose luminance is not 1
+			t.yy[3] = float32(r.pick(1, 2, 3, 4)) * 0.5
+			if r.intn(2) == 0 {
+				t.yy[3] = float32(0.2 + 2.8*r.f64())
+			}
+		case 2: // every luminance free
+			for k := range t.yy {
+				t.yy[k] = float32(0.2 + 2.8*r.f64())
+			}
+		}
+		tris = append(tris, t)
+	}
+	// the published spaces again, with whites of luminance 0.5 and 2
+	for i, n := 0, len(rgbSpaces); i < n; i++ {
+		for _, y := range []float32{0.5, 2} {
+			t := tris[i]
+			t.name = fmt.Sprintf("%s/Y=%v", t.name, y)
+			t.yy[3] = y
+			tris = append(tris, t)
+		}
 	}
 	worst := 0.0
 	for _, t := range tris {
-		col := func(k int) ciexyy.Color { return ciexyy.Color{X: t.p[k][0], Y: t.p[k][1], YY: 1} }
+		yy := func(k int) float32 {
+			if t.yy[k] == 0 {
+				return 1
+			}
+			return t.yy[k]
+		}
+		col := func(k int) ciexyy.Color { return ciexyy.Color{X: t.p[k][0], Y: t.p[k][1], YY: yy(k)} }
 		args := ""
 		for k := 0; k < 4; k++ {
-			args += fmt.Sprintf(" %08x %08x %08x", fb(t.p[k][0]), fb(t.p[k][1]), fb(1))
+			args += fmt.Sprintf(" %08x %08x %08x", fb(t.p[k][0]), fb(t.p[k][1]), fb(yy(k)))
 		}
 		var to, from matrix.Matrix3
 		var pan bool
@@ -462,7 +516,8 @@ func corrC20(c *corrCtx) {
 		}
 		w := mulv3(T, [3]float64{1, 1, 1})
 		wz := ciexyz.ColorFromXYY(col(3))
-		if math.Abs(w[0]-float64(wz.X)) > 1e-6*cd || math.Abs(w[1]-float64(wz.Y)) > 1e-6*cd || math.Abs(w[2]-float64(wz.Z)) > 1e-6*cd {
+		wsc := math.Max(1, float64(wz.Y))
+		if math.Abs(w[0]-float64(wz.X)) > 1e-6*cd*wsc || math.Abs(w[1]-float64(wz.Y)) > 1e-6*cd*wsc || math.Abs(w[2]-float64(wz.Z)) > 1e-6*cd*wsc {
 			c.direct("C20/white/"+t.name, "generated matrix does not map (1,1,1) to the white point's XYZ", map[string]interface{}{"p": t.p, "got": w, "want": []float32{wz.X, wz.Y, wz.Z}})
 		}
 		for k := 0; k < 3; k++ {
